@@ -481,7 +481,9 @@ class _Inliner:
         if fn.args.kwarg:
             fn_locals.add(fn.args.kwarg.arg)
         for n in ast.walk(fn):
-            if isinstance(n, ast.Name) and isinstance(n.ctx, (ast.Store, ast.Del)):
+            # stores, and loads as well: a helper's local must not capture a free variable of the caller either
+            # (a closure reading the enclosing function's parameter, a module global)
+            if isinstance(n, ast.Name):
                 fn_locals.add(n.id)
         self.fn_count = 0
         self.cur_fn = fn
@@ -556,6 +558,20 @@ def _unroll_literal_loops(tree):
     """for T in (lit, lit, ...): body   ->   body[T:=lit] ..."""
     count = 0
     literal_tables = {}
+    # module-level constant tables: NAME = ("a", "b", ...) bound once at module level and never stored to elsewhere
+    mod_stores = {}
+    for n in ast.walk(tree):
+        if isinstance(n, ast.Name) and isinstance(n.ctx, (ast.Store, ast.Del)):
+            mod_stores[n.id] = mod_stores.get(n.id, 0) + 1
+        elif isinstance(n, (ast.Global, ast.Nonlocal)):
+            for g in n.names:
+                mod_stores[g] = mod_stores.get(g, 0) + 2
+    module_tables = {}
+    for n in getattr(tree, "body", []):
+        if isinstance(n, ast.Assign) and len(n.targets) == 1 and isinstance(n.targets[0], ast.Name) \
+                and isinstance(n.value, (ast.Tuple, ast.List)) and mod_stores.get(n.targets[0].id) == 1 \
+                and all(isinstance(e, ast.Constant) for e in n.value.elts):
+            module_tables[n.targets[0].id] = n.value
 
     class U(ast.NodeTransformer):
         def visit_FunctionDef(self, node):
@@ -581,7 +597,10 @@ def _unroll_literal_loops(tree):
             it = node.iter
             if isinstance(it, ast.Name) and it.id in literal_tables:
                 it = literal_tables[it.id]
-            if not isinstance(it, (ast.Tuple, ast.List)) or not it.elts or len(it.elts) > 8 or node.orelse:
+            elif isinstance(it, ast.Name) and it.id in module_tables:
+                it = module_tables[it.id]
+            limit = 8 if len(node.body) > 3 else 24
+            if not isinstance(it, (ast.Tuple, ast.List)) or not it.elts or len(it.elts) > limit or node.orelse:
                 return node
             if any(isinstance(n, (ast.Break, ast.Continue)) for s in node.body for n in ast.walk(s)):
                 return node
@@ -614,6 +633,43 @@ def _unroll_literal_loops(tree):
     return count
 
 
+def _attr_builtins(tree):
+    """getattr(X, "name") -> X.name and setattr(X, "name", V) -> X.name = V for constant identifier names (the two
+    spellings are the same operation); only where the builtins are not rebound in the module."""
+    rebound = {n.id for n in ast.walk(tree) if isinstance(n, ast.Name) and isinstance(n.ctx, ast.Store) and n.id in ("getattr", "setattr")} | \
+              {a.arg for n in ast.walk(tree) if isinstance(n, ast.arguments) for a in n.posonlyargs + n.args + n.kwonlyargs if a.arg in ("getattr", "setattr")}
+    if rebound:
+        return 0
+    count = 0
+
+    def ident(e):
+        import keyword
+        return isinstance(e, ast.Constant) and isinstance(e.value, str) and e.value.isidentifier() and not keyword.iskeyword(e.value) \
+            and not (e.value.startswith("__") and not e.value.endswith("__"))
+
+    class G(ast.NodeTransformer):
+        def visit_Call(self, node):
+            nonlocal count
+            node = self.generic_visit(node)
+            if isinstance(node.func, ast.Name) and node.func.id == "getattr" and len(node.args) == 2 and not node.keywords and ident(node.args[1]):
+                count += 1
+                return ast.copy_location(ast.Attribute(value=node.args[0], attr=node.args[1].value, ctx=ast.Load()), node)
+            return node
+
+        def visit_Expr(self, node):
+            nonlocal count
+            node = self.generic_visit(node)
+            c = node.value
+            if isinstance(c, ast.Call) and isinstance(c.func, ast.Name) and c.func.id == "setattr" and len(c.args) == 3 and not c.keywords \
+                    and ident(c.args[1]) and isinstance(c.args[0], (ast.Name, ast.Attribute)):
+                count += 1
+                t = ast.Attribute(value=c.args[0], attr=c.args[1].value, ctx=ast.Store())
+                return ast.copy_location(ast.Assign(targets=[ast.copy_location(t, c)], value=c.args[2]), node)
+            return node
+    G().visit(tree)
+    return count
+
+
 def canonicalise(modules):
     """modules: dict name -> Module (parsed).  Mutates the trees in place; returns a log."""
     known = known_functions()
@@ -623,6 +679,9 @@ def canonicalise(modules):
         n = _unroll_literal_loops(mod.tree)
         if n:
             log.append(f"unrolled {n} literal loop(s) in {mod.path}")
+        n = _attr_builtins(mod.tree)
+        if n:
+            log.append(f"rewrote {n} constant getattr/setattr call(s) as attribute syntax in {mod.path}")
     for mod in modules.values():
         for node in mod.tree.body:
             if isinstance(node, ast.FunctionDef):
